@@ -551,8 +551,11 @@ macro_rules! variant {
                     let s1: Vec<String> = items.iter().map(|v| sh(&|| serde_json::to_value(v).unwrap())).collect();
                     let s2: Vec<String> = again.iter().map(|v| sh(&|| serde_json::to_value(v).unwrap())).collect();
                     let same = end2 && s1 == s2 && items.len() == again.len() && items.iter().zip(again.iter()).all(|(a, b)| a == b);
-                    format!("ok n={} end={} vals={} | enc={} clen={} | re={}", items.len(), end,
-                        if s1.is_empty() { "-".to_string() } else { s1.join(";") }, hex(&out), clen, if same { "same" } else { "diff" })
+                    // how NlriIter is consumed must not matter (common::iter_protocol), on the request's octets
+                    let mut pr = Proto::new();
+                    pr.it("NlriIter", || NlriIter::$iter(Parser::from_ref(&raw)), |r| match r { Ok(v) => sh(&|| serde_json::to_value(v).unwrap()).replace(' ', ","), Err(_) => "E".to_string() }, raw.len() + 1);
+                    format!("ok n={} end={} vals={} | enc={} clen={} | re={} {}", items.len(), end,
+                        if s1.is_empty() { "-".to_string() } else { s1.join(";") }, hex(&out), clen, if same { "same" } else { "diff" }, pr.token())
                 }
                 _ => "bad-op".into(),
             }
@@ -843,6 +846,9 @@ impl Prop for C05 {
     fn oracle(&self, line: &str, reply: &str) -> Result<(), String> {
         let w: Vec<&str> = line.split(' ').collect();
         if w.len() < 3 || reply == "bad-op" { return Ok(()); }
+        // the iterator-protocol verdict on NlriIter (last token of a `cat` reply)
+        proto_judge(reply)?;
+        let reply = reply.strip_suffix(" proto=ok").unwrap_or(reply);
         if let Some(i) = reply.find(" CTOR-BAD:") { return Err(format!("the public constructors of the family disagree with the value: {}", &reply[i + 10..])); }
         let Some(var) = variant(w[1]) else { return Ok(()) };
         let parts: Vec<&str> = reply.split(" | ").collect();
